@@ -12,6 +12,9 @@ from ..runner import Result
 SP = "space.rs"
 XF = ("part.rs",)
 I0 = Const(0, "Int")
+R1 = Const(1, "Real")
+from fractions import Fraction
+EPS10 = Const(Fraction(1, 10 ** 10), "Real")
 
 
 @isolated('grid')
@@ -185,6 +188,29 @@ def welzl_entry_obligations(prefix):
     return [o], [{"fn": u.label, "slice_sha": u.sha}]
 
 
+@isolated('sphere_contains')
+def contains_obligations(prefix):
+    """Sphere::contains, the test Welzl's recursion (and every caller of the solvers) decides containment with. From the property ('spheres
+    containing all given points'): a point reported as contained is within the radius up to the stated relative tolerance, a point within
+    the radius of a proper sphere is reported as contained, and the zero-radius sphere -- Sphere::EMPTY, which from_boundary_points returns
+    for 0 or 1 boundary points as 'no sphere yet' -- contains NO point (not even its own centre), so that the recursion adds the next
+    point to the boundary instead of accepting the placeholder as a solution."""
+    u = Unit("geometry.rs", "Sphere::contains")
+    c, r, x = vec("sph_c"), real("sph_r"), vec("x")
+    sp = Struct("Sphere", {"center": c, "radius": r})
+    res, env, ctx, _ = u.run({"self": sp, "x": x})
+    P = ctx.assume + ctx.ok
+    d2 = norm2(sub(x, c))
+    rp = lambda ob: _as_replay(sphere_probe(20260930, 12))
+    obs = [
+        Obligation(prefix + ".contains.reported_contained_implies_within_radius_up_to_relative_1e-10", P + [res], Le(d2, r * r * (R1 + EPS10)), u.label, replay=rp),
+        Obligation(prefix + ".contains.within_radius_of_a_proper_sphere_implies_reported_contained", P + [Gt(r, R0), Le(d2, r * r)], res, u.label, replay=rp),
+        Obligation(prefix + ".contains.placeholder_sphere_of_radius_zero_contains_no_point", P + [Eq(r, R0)], Not(res), u.label, replay=rp),
+        Obligation(prefix + ".contains.requires_satisfiable", P + [res], TRUE, u.label, expect_sat=True),
+    ]
+    return obs, [{"fn": u.label, "slice_sha": u.sha}]
+
+
 def _as_replay(res):
     n, bad = res
     return {"reproduced": bad is not None, "searched": n, "mismatch": bad}
@@ -258,6 +284,9 @@ def sphere_probe(seed, n_sets):
     for t in range(n_sets):
         n = rng.choice([2, 3, 5, 7, 30])
         pts = [[rng.uniform(-1, 1) * (10.0 ** rng.choice([0, 0, 3])) for _ in range(3)] for _ in range(n)]
+        if t % 3 == 2 and n <= 7: pts[rng.randrange(2)] = [0.0, 0.0, 0.0]      # a point exactly at the centre of the placeholder Sphere::EMPTY
+        for exact in (True, False): reqs.append({"op": "bounding_sphere", "points": pts, "exact": exact})
+    for pts in ([[0.0, 0.0, 0.0], [2.0, 0.0, 0.0]], [[0.0, 0.0, 0.0], [2.0, 0.0, 0.0], [1.0, 0.5, 0.0]], [[1.0, 1.0, 0.0], [0.0, 0.0, 0.0], [1.0, -1.0, 0.0], [0.5, 0.0, 0.2]]):
         for exact in (True, False): reqs.append({"op": "bounding_sphere", "points": pts, "exact": exact})
     for rq, a in zip(reqs, replay_requests(reqs, timeout=300)):
         if "c" not in a or a.get("r") is None: return len(reqs), {"request": rq, "real": a, "what": "bounding sphere solver panics / returns NaN"}
@@ -301,7 +330,7 @@ def _min_sphere_radius(pts):
 
 def run(tier, seed):
     obs, fns = [], []
-    for f in (grid_obligations, binning_obligations, pruning_obligations, ring_bound_obligations, welzl_entry_obligations):
+    for f in (grid_obligations, binning_obligations, pruning_obligations, ring_bound_obligations, welzl_entry_obligations, contains_obligations):
         o, fn = f("C20"); obs += o; fns += fn
     smt.discharge_all(obs, tier)
     results = [runner.from_smt(o) for o in obs]
